@@ -24,7 +24,7 @@ def register(reg):
     reg.axiom('blt_total', {'a': KBytes, 'b': KBytes}, '(blt(a, b) or blt(b, a) or a == b) and not (blt(a, b) and blt(b, a))')
     reg.axiom('prefix_def', {'p': KBytes, 'k': KBytes}, 'has_prefix(p, k) == (len(k) >= len(p) and k[:len(p)] == p)')
 
-    reg.cls(KV, fields={'for_sync': Bool}, ghost={'g_map': Dict(KBytes, KBytes)},
+    reg.cls(KV, fields={'for_sync': Bool}, ghost={'g_map': Dict(KBytes, KBytes), 'g_commits': Int},   # g_commits: durable write events so far
             methods={'get': KV + '.get', 'put': KV + '.put', 'delete': KV + '.delete', 'iterator': KV + '.iterator',
                      'write_batch': KV + '.write_batch'})
     reg.cls(BATCH, fields={'db': Obj(KV)}, ghost={'g_ops': Dict(KBytes, Opt(KBytes))},
@@ -35,8 +35,8 @@ def register(reg):
                  ensures=['is_none(result) == (key not in self.g_map)',
                           'implies(key in self.g_map, some(result) == lookup(self.g_map, key))'],
                  assumes_inv=False, maintains_inv=False, trusted=T + 'get returns the stored value or None')
-    reg.contract(KV + '.put', params={'self': Obj(KV), 'key': KBytes, 'value': KBytes}, modifies=['self.g_map'],
-                 ensures=['self.g_map == store(old(self.g_map), key, value)'],
+    reg.contract(KV + '.put', params={'self': Obj(KV), 'key': KBytes, 'value': KBytes}, modifies=['self.g_map', 'self.g_commits'],
+                 ensures=['self.g_map == store(old(self.g_map), key, value)', 'self.g_commits == old(self.g_commits) + 1'],
                  assumes_inv=False, maintains_inv=False, commit='kv-put', trusted=T + 'a direct put is an atomic single-key update')
     reg.contract(KV + '.iterator', params={'self': Obj(KV), 'prefix': KBytes, 'reverse': Bool}, returns=ROWS,
                  defaults={'reverse': False, 'prefix': b''},
@@ -67,8 +67,9 @@ def register(reg):
     reg.contract(BATCH + '.__enter__', params={'self': Obj(BATCH)}, assumes_inv=False, maintains_inv=False,
                  trusted=T + 'entering the batch context')
     # normal exit: all operations applied atomically; exceptional exit: nothing
-    reg.contract(BATCH + '.__exit__', params={'self': Obj(BATCH), 'failed': Bool}, modifies=['self.db.g_map'],
+    reg.contract(BATCH + '.__exit__', params={'self': Obj(BATCH), 'failed': Bool}, modifies=['self.db.g_map', 'self.db.g_commits'],
                  ensures=[
+                     ('one-durable-event', 'self.db.g_commits == old(self.db.g_commits) + ite(failed, 0, 1)'),
                      ('nothing-on-exception', 'implies(failed, self.db.g_map == old(self.db.g_map))'),
                      ('applied', 'implies(not failed, forall(lambda k=Bytes: '
                                  'ite(k in self.g_ops, ite(is_none(lookup(self.g_ops, k)), k not in self.db.g_map,'
